@@ -15,4 +15,7 @@ def build(reg):
     keep += [x for x in tocinit.add_tocinit(reg) if 'C15' in x.props]  # opening never writes through a read-only container
     keep += [x for x in packerpg.add_packerpg(reg) if 'C15' in x.props]  # packers only ever get a skel_only, unclosable container
     keep += interface.add_interface(reg)  # attach / detach through a read_only node: refused without effect
-    return {"verify": keep, "lemmas": [], "trusted": ["T7 wrapt.ObjectProxy: _self_* attributes are local to the wrapper; __wrapped__ is the raw object"] + packerpg.T_PACKER + tocinit.T_TOCINIT + attrsacl.T_ATTRS + attrsacl.T_CONTAINS + contops.T_OPS + query.T_QUERY + metaread.T_READ + listing.T_LIST, "assumptions": ["navigation chains of any length: every step creates its result through _wrap_if_node/_child_node_kwargs (proved flag-monotone), so flags are monotone along every chain; the list of navigation primitives that do so is checked bounded"]}
+    from . import oneliners
+
+    keep = keep + oneliners.add_oneliners(reg, props=("C15",))  # one- and two-line delegations, verified against what other contracts bind them to
+    return {"verify": keep, "lemmas": [], "trusted": oneliners.T_ONE + ["T7 wrapt.ObjectProxy: _self_* attributes are local to the wrapper; __wrapped__ is the raw object"] + packerpg.T_PACKER + tocinit.T_TOCINIT + attrsacl.T_ATTRS + attrsacl.T_CONTAINS + contops.T_OPS + query.T_QUERY + metaread.T_READ + listing.T_LIST, "assumptions": ["navigation chains of any length: every step creates its result through _wrap_if_node/_child_node_kwargs (proved flag-monotone), so flags are monotone along every chain; the list of navigation primitives that do so is checked bounded"]}
